@@ -147,6 +147,14 @@ func diffMap(old map[string]interface{}, newAny interface{}) interface{} {
 		return nil
 	}
 
+	// A null __key is a key too: an object that has a __key field and an object
+	// that has none are different objects.
+	_, oldHasKey := old["__key"]
+	_, newHasKey := new["__key"]
+	if oldHasKey != newHasKey {
+		return markReplaced(new)
+	}
+
 	// Assert that the __key fields, if present, are equal.
 	if old["__key"] != new["__key"] {
 		return markReplaced(new)
